@@ -46,14 +46,17 @@ func (p *MP4ChunkParser) Parse() error {
 				return err
 			}
 			// EOF
-			if p.contentEnd > 0 {
-				cd.Data = p.buf[:p.contentEnd]
-				err := p.callBack(cd)
-				if err != nil {
-					return err
+			if p.contentEnd < int(nextBoxStart)+8 {
+				if p.contentEnd > 0 {
+					cd.Data = p.buf[:p.contentEnd]
+					err := p.callBack(cd)
+					if err != nil {
+						return err
+					}
 				}
+				return nil
 			}
-			return nil
+			// The last bytes arrived together with io.EOF and complete a box header: inspect it like any other.
 		}
 		size := binary.BigEndian.Uint32(p.buf[nextBoxStart : nextBoxStart+4])
 		currBox = string(p.buf[nextBoxStart+4 : nextBoxStart+8])
